@@ -151,7 +151,18 @@ pub fn exec_step(gi: usize, t: usize, s: &Value, guards: &mut Vec<dispatch::Defa
                 None => h.applied = false,
             }
         }
-        "emit" => do_emit(site, kind, val),
+        "emit" => {
+            if s["cpanic"].as_bool().unwrap_or(false) {
+                // fault: the collector's own callback panics (after recording the delivery); the panic is caught
+                // around the emission, and the thread's dispatcher state must be as before afterwards
+                crate::rec::PANIC_NEXT_CALLBACK.with(|c| c.set(true));
+                let r = catch_unwind(AssertUnwindSafe(|| do_emit(site, kind, val)));
+                crate::rec::PANIC_NEXT_CALLBACK.with(|c| c.set(false));
+                h.panicked = r.is_err();
+            } else {
+                do_emit(site, kind, val)
+            }
+        }
         "probe" => h.res_bool = sites::probe(site as usize),
         "rebuild" => tracing_core::callsite::rebuild_interest_cache(),
         "flip" => {
@@ -363,7 +374,7 @@ impl Engine for CoreEngine {
                 let t = rng.below(nthreads);
                 let tt = t as usize;
                 let roll = rng.below(100);
-                let want_new = created.is_empty() || (roll < 12 && (created.len() as u64) < ncoll);
+                let want_new = created.is_empty() || (roll < if prop == "C01" && sync { 30 } else { 12 } && (created.len() as u64) < ncoll);
                 if want_new {
                     let k = created.len() as u64;
                     let f = if prop == "C02" && (sync || rng.chance(2, 3)) { json!({"thr": 5, "targets": 15, "mode": 0, "hint": rng.below(3)}) } else { gen_filter(&mut rng, allow_dyn) };
@@ -432,7 +443,11 @@ impl Engine for CoreEngine {
                             // bare emission on the slow path before a global default exists
                             touched[tt] = true;
                         }
-                        json!({"t": t, "op": "emit", "site": site, "kind": kind})
+                        if rng.chance(1, 8) {
+                            json!({"t": t, "op": "emit", "site": site, "kind": kind, "cpanic": true})
+                        } else {
+                            json!({"t": t, "op": "emit", "site": site, "kind": kind})
+                        }
                     }
                 };
                 let _ = i;
@@ -677,10 +692,10 @@ fn oracle(prop: &str, sync: bool, hist: &[Hist], log: &[Rec], filters: &[Option<
                 }
             }
             "probe" => {
-                // judged only when a collector is certainly current
-                if recv_opts.iter().all(|r| *r >= 0) {
+                // a thread without any collector must see `false` (the no-op collector enables nothing)
+                {
                     let (lvl, tg) = sites::SITES[h.site as usize];
-                    let ok = recv_opts.iter().any(|&r| filters[r as usize].as_ref().map_or(false, |f| f.accept(lvl, tg, flipped[r as usize])) == h.res_bool);
+                    let ok = recv_opts.iter().any(|&r| if r < 0 { !h.res_bool } else { filters[r as usize].as_ref().map_or(false, |f| f.accept(lvl, tg, flipped[r as usize])) == h.res_bool });
                     if !ok {
                         violation("probe-mismatch", format!("enabled! at site {} on t{t} returned {} but the current collector {:?} says otherwise", h.site, h.res_bool, recv_opts));
                     }
